@@ -333,3 +333,24 @@ mut("N: weight sum with fold", [(PRE, "        edges_in_subgraph\n            .i
 # ---- conditional effects inside summarised loops (engine soundness) ----
 mut("C08 L matrix accumulates only edges with a positive signature product", [(SAM, "                if i == j {\n                    temp_l_matrix[(i, j)] += &add;", "                if signature_matrix[e][i] * signature_matrix[e][j] < 0 {\n                    continue;\n                }\n                if i == j {\n                    temp_l_matrix[(i, j)] += &add;")], C08="C08-")
 mut("C08 L matrix skips the mirrored entry when the contribution is negative", [(SAM, "                    temp_l_matrix[(j, i)] += &add;", "                    if signature_matrix[e][i] * signature_matrix[e][j] > 0 {\n                        temp_l_matrix[(j, i)] += &add;\n                    }")], C08="C08-a")
+
+
+# ---- composite properties (C01, C02): expectations derived mechanically from the owners' rows ----
+# A row that makes a selected owner clause fire must make the composite fire under the restated id; a row on which an owner must stay
+# silent must leave the composite silent (its clauses are a subset of the owners').
+def _derive_composites():
+    import os, sys
+    sys.path.insert(0, os.path.dirname(os.path.dirname(os.path.abspath(__file__))))
+    from mtsa.rules import c01, c02
+    for comp, plan in (("C01", c01.PLAN), ("C02", c02.PLAN)):
+        sel = {o: set(r) for o, r in plan}
+        for m in M:
+            ex = m["expect"]
+            if comp in ex:
+                continue
+            fire = [w for o, w in ex.items() if o in sel and w in sel[o]]
+            if fire:
+                ex[comp] = "%s.%s" % (comp, fire[0])
+            elif any(o in sel for o in ex) and all(w is None for w in ex.values()):
+                ex[comp] = None
+_derive_composites()
